@@ -418,6 +418,41 @@ def lifecycle(kind: str) -> list:
             k, v = run(t3.disconnect())
             if k != "ok":
                 bad("disconnect-error-not-absorbed", f"close raising {close_exc!r} / wait_closed raising {wait_exc!r}: disconnect gave {k} {v!r}")
+        # connect, disconnect, connect again on the same object: the second connection is used
+        t5 = TCPTransport("h") if kind == "tcp" else SerialTransport("p")
+        target5 = "aiomysensors.transport.tcp.asyncio.open_connection" if kind == "tcp" else "aiomysensors.transport.serial.open_serial_connection"
+        for round_ in (1, 2):
+            reader = asyncio.StreamReader(loop=loop)
+            reader.feed_data(f"{round_};255;3;0;9;round{round_}\n".encode())
+            reader.feed_eof()
+            w5 = FakeWriter()
+
+            async def factory5(*a, _r=reader, _w=w5, **kw):
+                return _r, _w
+
+            with patch(target5, factory5):
+                k, v = run(t5.connect())
+            if k != "ok":
+                bad("reconnect", f"connect #{round_} on the same transport gave {k} {v!r}")
+                break
+            k, v = run(t5.read())
+            if k != "ok" or v.rstrip("\n") != f"{round_};255;3;0;9;round{round_}":
+                bad("reconnect-read", f"after connect #{round_} read gave {k} {v!r} (expected the line of connection #{round_})")
+            k, v = run(t5.write(f"w{round_}\n"))
+            if k != "ok" or w5.data != f"w{round_}\n".encode():
+                bad("reconnect-write", f"after connect #{round_} write gave {k} {v!r}; the new connection received {w5.data!r}")
+            k, v = run(t5.disconnect())
+            if k != "ok" or not w5.closed:
+                bad("reconnect-disconnect", f"disconnect #{round_} gave {k} {v!r}, writer closed={w5.closed}")
+
+            async def failing5(*a, **kw):
+                raise ConnectionRefusedError("refused")
+
+            if round_ == 2:
+                with patch(target5, failing5):
+                    k, v = run(t5.connect())
+                if not (k == "raise" and isinstance(v, TransportError)):
+                    bad("reconnect-failure-not-reported", f"a failing connection attempt after earlier connections gave {k} {v!r}")
         # write errors: drain raising OSError
         class BadDrain(FakeWriter):
             async def drain(self):
@@ -453,7 +488,8 @@ def run(ctx: core.Ctx) -> core.Report:
     for kind in KINDS:
         viols += [core.Violation(k, w, rep) for k, w, rep in lifecycle(kind)]
     # write side
-    line_sets = [["1;1;1;0;2;a\n"], ["1;1;1;0;2;é\n", "2;2;1;0;2;b\n"], ["1;1;1;0;2;a;b\n", "1;255;3;0;11;日本\n", "0;0;0;0;0;\n"]]
+    line_sets = [["1;1;1;0;2;a\n"], ["1;1;1;0;2;é\n", "2;2;1;0;2;b\n"], ["1;1;1;0;2;a;b\n", "1;255;3;0;11;日本\n", "0;0;0;0;0;\n"],
+                 ["1;1;1;0;2;a\rb\x0bc\x0cd\x1ce\x85f\u2028g\u2029h\n", "1;1;1;0;2; lead and trail \t\n"], ["no terminator", "\n", "x\n\ny\n"]]
     wcfgs = [{"kind": k, "lines": ls, "faults": f} for k in KINDS for ls in line_sets for f in (False, True)]
     wres = explore.explore(ctx, MOD, wcfgs, 2 if ctx.quick else 99)
     viols += wres["violations"]
